@@ -221,7 +221,7 @@ def gen_cases(ctx, budget_s, composite=True, max_trials=6, gen_fn=None, corpus=T
         if prefer is not None:
             # the corpus designs the property is about come first (stable order within each part)
             pending = [x for x in pending if prefer(x)] + [x for x in pending if not prefer(x)]
-    t_corpus = ctx.elapsed() + budget_s * 0.6
+    t_corpus = ctx.elapsed() + budget_s * 0.8        # the deterministic boundary corpus first; random designs get the rest
     while ctx.elapsed() < t_end:
         from_corpus = False
         if pending and ctx.elapsed() < t_corpus:
@@ -434,7 +434,15 @@ def oracle_c06(ctx, budget_s):
                      "solution_count metric (combined over preamble, rounds and leftover) equals the number of solutions")
     def first(desc):
         # the bookkeeping of excluded levels is where counts go wrong: designs with Excludes first
-        return sum(1 for c in D.all_constraints(desc["block"]) if c["k"] == "Exclude") >= 1
+        if sum(1 for c in D.all_constraints(desc["block"]) if c["k"] == "Exclude") >= 1:
+            return True
+        # ... and so is the counting of source completions: a crossed within-trial factor whose sources lie outside the
+        # crossing, stretched by MinimumTrials or repeated (crossing weight above 1, leftover rounds)
+        fs = _fmap(desc)
+        dep_out = any(fs[f]["window"] is not None and not _is_complex(fs, f) and any(d not in cr for d in _trans_deps(fs, f))
+                      for cr in _crossings(desc["block"]) for f in cr)
+        return dep_out and (any(c["k"] == "MinimumTrials" for c in D.all_constraints(desc["block"])) or
+                            "repeat" in block_kinds(desc["block"]))
     for case in gen_cases(ctx, budget_s, max_trials=5, prefer=first):
         got = check_exhaust(ctx, case, "RandomGen", "C06")
         ctx.count("C06.exhaust" + (".empty" if got == {} else ""))
